@@ -181,8 +181,13 @@ class Pairs(Stream):
             mel = Melody(notes)
             sc = Score([(I % I.M)(piano__0=mel), (I % I.M)(piano__0=mel)])
             real = sc.realize_tags()
+            # parts entering and leaving between chords (the neighbour-note contexts are looked up in the neighbouring chords)
+            from musiclang.library import V
+            sc3 = Score([(I % I.M)(piano__0=mel, flute__0=mel), (V % I.M)(violin__0=mel, piano__0=mel), (I % I.M)(flute__0=mel)])
+            real3 = sc3.realize_tags()
             rows = impl_rows(sc)
-            return {"mel": F(mel.realize_tags().duration), "score": F(real.duration), "orig": F(mel.duration),
+            return {"ragged": [F(real3.duration), F(sc3.duration), [sorted(c.score.keys()) for c in real3.chords] == [sorted(c.score.keys()) for c in sc3.chords]],
+                    "mel": F(mel.realize_tags().duration), "score": F(real.duration), "orig": F(mel.duration),
                     "rows_end": max((r[1] + r[2] for r in rows), default=F(0)), "neg": any(r[2] < 0 for r in rows)}
         return mlang.guarded(f)
 
@@ -203,6 +208,8 @@ class Pairs(Stream):
             return {"sig": "melody-realize-raises:" + "+".join(tg[:1]), "msg": str(r)}
         if r["mel"] != r["orig"] or r["score"] != 2 * r["orig"] or r["rows_end"] > 2 * r["orig"] or r["neg"]:
             return {"sig": "melody-realize-changes-span", "msg": str(r)}
+        if r["ragged"][0] != r["ragged"][1] or not r["ragged"][2]:
+            return {"sig": "score-realize-changes-span:parts-entering-and-leaving", "msg": str(r["ragged"])}
         return None
 
     def hist_keys(self, case, r):
